@@ -123,8 +123,9 @@ def helpers_hold_live_objects(ctx, rule, only=('TimeoutHandler', 'ResultHandler'
                 continue
             v = m.class_attr(pool, cal.split('.')[1])
             target = m.resolve_class(dotted(v), fi.module) if v is not None and dotted(v) else None
-            if target is None or target.name not in only:
+            if target is None or not any(o.split('.')[0] == target.name for o in only):
                 continue
+            wanted = {o.split('.')[1] for o in only if '.' in o and o.split('.')[0] == target.name}
             init = m.method(target, '__init__')
             if init is None:
                 continue
@@ -137,6 +138,9 @@ def helpers_hold_live_objects(ctx, rule, only=('TimeoutHandler', 'ResultHandler'
                 if k.arg and ast.unparse(k.value) in live:
                     bound[k.arg] = ast.unparse(k.value)
             for p, what in sorted(bound.items()):
+                if wanted and {'self._pool': 'workers', 'self._cache': 'cache',
+                               'self._on_ready_counters': 'counters'}[what] not in wanted:
+                    continue
                 n += 1
                 stores = [(dn, t, v2) for (dn, t, v2) in q.assigns(init, lambda t: t.startswith('self.'))
                           if v2 is not None and any(isinstance(x, ast.Name) and x.id == p for x in ast.walk(v2))]
@@ -171,7 +175,7 @@ def r05_7(ctx):
 
 
 def run(ctx):
-    helpers_hold_live_objects(ctx, 'R05.8', only=('TimeoutHandler', 'ResultHandler'))
+    helpers_hold_live_objects(ctx, 'R05.8', only=('TimeoutHandler', 'ResultHandler.cache'), floor=3)
     r05_7(ctx)
     r04_1(ctx, site=_scanner_side, floor=5)
     r05_1(ctx)
@@ -185,6 +189,10 @@ def run(ctx):
     from .c09 import r09_1, r09_3
     r09_3(ctx)
     r09_1(ctx, state_recheck=False)
+    # ... and, with put-locks, the slot of the job whose worker was killed comes back with the reaped worker (the job
+    # itself was resolved by the scanner and has left the cache by then): otherwise apply_async blocks for good
+    from .c10 import r10_4
+    r10_4(ctx)
 
 
 _P = 'billiard/pool.py'
